@@ -591,6 +591,22 @@ fn hostile_files(seed: u64, idx: u64, work: &Path, rep: &mut Report) {
         d.basis_size = 1 << 30;
         files.push(("delta", "copy_len=1GiB+basis_size".into(), bincode::serialize(&d).unwrap()));
     }
+    // zero-length copy ops (copia's own encoder never emits one)
+    {
+        let mut d = delta.clone();
+        d.ops.insert(0, DeltaOp::Copy { offset: 0, len: 0 });
+        files.push(("delta", "copy_len=0-inserted".into(), bincode::serialize(&d).unwrap()));
+        let mut d = delta.clone();
+        if let Some(i) = d.ops.iter().position(DeltaOp::is_copy) {
+            if let DeltaOp::Copy { len, .. } = &mut d.ops[i] {
+                *len = 0;
+            }
+            files.push(("delta", "copy_len=0-existing".into(), bincode::serialize(&d).unwrap()));
+        }
+        let mut d = delta.clone();
+        d.ops.push(DeltaOp::Literal(Vec::new()));
+        files.push(("delta", "literal_len=0-appended".into(), bincode::serialize(&d).unwrap()));
+    }
     for cut in [0usize, 3, 4, 12, 20, 27, 28, 31, 32, 40, delb.len().saturating_sub(33), delb.len().saturating_sub(1)] {
         if cut < delb.len() {
             files.push(("delta", format!("truncate@{cut}"), delb[..cut].to_vec()));
